@@ -101,7 +101,12 @@ class Pools:
         if c < 0.3:
             return ("lit", lex, None, None)
         if c < 0.5:
-            return ("lit", lex, rng.choice(LANGS), None)
+            lang = rng.choice(LANGS)
+            if not self.rdflib_safe and rng.random() < 0.3:
+                # same tag in another letter case: a different spelling that the round trip must keep
+                # (not for rdflib, whose own literal equality ignores the case of language tags)
+                lang = rng.choice([lang.upper(), lang.lower(), lang.title()])
+            return ("lit", lex, lang, None)
         if not allow_dt:
             return ("lit", lex, None, None)
         return ("lit", lex, None, rng.choice(self.datatypes))
